@@ -60,7 +60,8 @@ use crate::{
 const NAMES: [&str; 3] = [".ignore", ".gitignore", ".hgignore"];
 const VCS_DIRS: [&str; 7] = [".git", ".hg", ".bzr", "_darcs", ".fossil-settings", ".svn", ".pijul"];
 const MARKER: &str = "zz-marker-matches-nothing\n";
-const CONTENTS: [&str; 8] = ["", "# only a comment\n", "x.log\n", "a/\n", "/test\n", "tests/\n", "!a/\n", "*\n"];
+// "a" and "*" without a line terminator: the shortest non-empty ignore files there are
+const CONTENTS: [&str; 10] = ["", "# only a comment\n", "x.log\n", "a/\n", "/test\n", "tests/\n", "!a/\n", "*\n", "a", "*"];
 const CONTENTS_PAIR: [&str; 5] = ["x.log\n", "a/\n", "!a/\n", "/test\n", "*\n"];
 
 fn tag_for(name: &str) -> Option<ProjectType> {
